@@ -261,7 +261,13 @@ def run(ctx):
                 add(fmt, dt, names, lang, words)
     # a share of the cases runs on parsers that were all constructed before any of them was used (state shared behind
     # the constructor would surface as another case's result)
-    results = core.run_cases_prebuilt(ctx, cases, lambda i: i % 5 == 0 and not ctx.replay, size=5)
+    # "the current year / date" is whatever day it is: a share of the cases runs with the library's clock moved to a month
+    # end, a leap day, New Year's Eve / Day (the expected values are computed from the same, moved, clock)
+    if not ctx.replay:
+        for i, c in enumerate(cases):
+            if i % 5 == 1:
+                c["fake_today"] = rng.choice([[2024, 2, 29], [2023, 12, 31], [2025, 1, 1], [2021, 1, 31], [2022, 3, 31], [2023, 2, 28], [2024, 5, 31], [2021, 11, 30]])
+    results = core.run_cases_prebuilt(ctx, cases, lambda i: i % 5 == 0 and not ctx.replay and not cases[i].get("fake_today"), size=5)
     records = []
     for i, (c, r) in enumerate(zip(cases, results)):
         if c["lang"] != "en":
